@@ -100,6 +100,20 @@ class TLCResult(object):
         return out
 
 
+MAX_SCRATCH = 6 * 1024 ** 3
+
+
+def _dir_size(path):
+    total = 0
+    for root, _, files in os.walk(path):
+        for f in files:
+            try:
+                total += os.path.getsize(os.path.join(root, f))
+            except OSError:
+                pass
+    return total
+
+
 def run_tlc(wd, module, cfg, workers=16, timeout=600, extra=(), coverage=False, deadlock_off=True,
             java_opts=(), env=None, heap='8g'):
     """Run TLC in model-checking mode; returns TLCResult. Raises TLCError on timeout/crash."""
@@ -119,8 +133,30 @@ def run_tlc(wd, module, cfg, workers=16, timeout=600, extra=(), coverage=False, 
     outpath = os.path.join(meta, 'tlc.out')
     try:
         with open(outpath, 'wb') as fo:
-            p = subprocess.run(cmd, cwd=wd.path, stdout=fo, stderr=subprocess.STDOUT,
-                               timeout=timeout, env=e)
+            proc = subprocess.Popen(cmd, cwd=wd.path, stdout=fo, stderr=subprocess.STDOUT, env=e)
+            try:
+                # poll: a state-graph export that outgrows MAX_SCRATCH is stopped (the scratch directory may be in RAM)
+                while True:
+                    try:
+                        proc.wait(timeout=5)
+                        break
+                    except subprocess.TimeoutExpired:
+                        pass
+                    if time.time() - t0 > timeout:
+                        proc.kill()
+                        proc.wait()
+                        raise subprocess.TimeoutExpired(cmd, timeout)
+                    if _dir_size(wd.path) > MAX_SCRATCH:
+                        proc.kill()
+                        proc.wait()
+                        raise TLCError('TLC output of %s/%s outgrew %d GB of scratch space: the configuration is too large for '
+                                       'graph export' % (module, cfg, MAX_SCRATCH // 1024 ** 3))
+            except BaseException:
+                if proc.poll() is None:
+                    proc.kill()
+                    proc.wait()
+                raise
+            p = proc
         with open(outpath, 'rb') as fo:
             out = fo.read().decode('utf-8', 'replace')
     except subprocess.TimeoutExpired as ex:
